@@ -27,7 +27,7 @@ func init() {
 		Cases: func(seed uint64, tier string) []Case {
 			n := 3000
 			if !quick(tier) {
-				n = 120000
+				n = 60000
 			}
 			cs := make([]Case, 0, n+400)
 			for i := 0; i < n; i++ {
@@ -36,7 +36,7 @@ func init() {
 			// structured call trees (nested DELEGATECALL/CALLCODE chains, creates, values; every frame stores CALLER/CALLVALUE/ADDRESS/ORIGIN)
 			nt := 200
 			if !quick(tier) {
-				nt = 8000
+				nt = 4000
 			}
 			for i := 0; i < nt; i++ {
 				cs = append(cs, Case{Kind: "tree", Seed: h.Mix(seed, 0xC01A, uint64(i))})
@@ -44,7 +44,7 @@ func init() {
 			// the convenience entry points of vm/runtime and the host-side constructors of core/evm.go
 			nr := 400
 			if !quick(tier) {
-				nr = 10000
+				nr = 5000
 			}
 			for i := 0; i < nr; i++ {
 				cs = append(cs, Case{Kind: "runtime", Seed: h.Mix(seed, 0xC01B, uint64(i))})
